@@ -34,7 +34,9 @@
 (*    zero, ONE object per record however often it is referenced from      *)
 (*    pointer-like positions (pointer, interface), a copy per struct-value *)
 (*    position; Err when a record has a key no field accepts or a value    *)
-(*    of the wrong kind for its field.                                     *)
+(*    of the wrong kind for its field.  (A record that gives an embedded   *)
+(*    struct as a whole AND one of its promoted fields is outside the      *)
+(*    generated space: which write wins is not stated.)                    *)
 (* Back(g, T, objs)     the record (as a tree) a Go value is handed back   *)
 (*    as: registered type name, one pair per field (fields of embedded     *)
 (*    structs promoted), label = json tag or Go field name.                *)
@@ -375,7 +377,7 @@ MatchFields(fl, vals, i, objs, pairs, drop) ==
        /\ MatchFields(fl, vals, i + 1, objs, pairs, drop)
 
 (* a struct value (and everything reachable from it through pointers) has an embedded field *)
-RECURSIVE HasEmb(_), HasNil(_)
+RECURSIVE HasNil(_)
 HasEmb(S) == \E i \in 1..Len(StructOf(S)) : FEmb(StructOf(S)[i])
 (* a nil pointer / nil interface occurs in a Go value *)
 HasNil(g) == CASE g[1] \in {"nilptr", "niliface"} -> TRUE
